@@ -1,6 +1,7 @@
 //! Schedule sources: replay (free mode), preemption-bounded DFS, random walks, PCT.
 
 use crate::exec::{default_pick, Source, StepInfo, View};
+use crate::rt::K;
 use rand::rngs::StdRng;
 use rand::{Rng, SeedableRng};
 
@@ -190,4 +191,76 @@ impl Dfs {
 
 pub fn preemptions(steps: &[StepInfo]) -> usize {
     steps.iter().map(|s| cost(s.cont, s.chosen)).sum()
+}
+
+
+/// Freeze schedules (C18): random walk; at chosen moments every thread but one is frozen wherever it
+/// is and a thread that is about to start a non-blocking call runs that call alone.
+pub struct Freeze {
+    pub rng: StdRng,
+    pub solo_t: Option<usize>,
+    pub started: bool,
+    pub bound: usize,
+    pub countdown: usize,
+}
+
+impl Freeze {
+    pub fn new(seed: u64, bound: usize) -> Freeze {
+        let mut rng = StdRng::seed_from_u64(seed);
+        let countdown = rng.gen_range(1..40);
+        Freeze { rng, solo_t: None, started: false, bound, countdown }
+    }
+}
+
+impl Source for Freeze {
+    fn pick(&mut self, v: &View) -> usize {
+        if let Some(t) = self.solo_t {
+            let me = v.pend.iter().find(|p| p.0 == t);
+            match me {
+                Some((_, kind, _)) => {
+                    if *kind == K::Call && self.started {
+                        // the call returned and the thread is at its next call: thaw the others
+                        self.solo_t = None;
+                        self.started = false;
+                        self.countdown = self.rng.gen_range(1..40);
+                    } else {
+                        self.started = true;
+                        return t;
+                    }
+                }
+                None => {
+                    // finished or blocked: thaw
+                    self.solo_t = None;
+                    self.started = false;
+                    self.countdown = self.rng.gen_range(1..40);
+                }
+            }
+        }
+        if self.countdown == 0 {
+            // freeze: pick a thread that is about to start a call
+            let cands: Vec<usize> = v.pend.iter().filter(|p| p.1 == K::Call).map(|p| p.0).collect();
+            if !cands.is_empty() {
+                let t = cands[self.rng.gen_range(0..cands.len())];
+                self.solo_t = Some(t);
+                self.started = false;
+                return t;
+            }
+        } else {
+            self.countdown -= 1;
+        }
+        if let Some(c) = v.cont {
+            if !self.rng.gen_bool(0.3) {
+                return c;
+            }
+        }
+        v.enabled[self.rng.gen_range(0..v.enabled.len())]
+    }
+    fn solo(&self) -> Option<(usize, usize)> {
+        self.solo_t.map(|t| (t, self.bound))
+    }
+    fn solo_abort(&mut self) {
+        self.solo_t = None;
+        self.started = false;
+        self.countdown = self.rng.gen_range(1..40);
+    }
 }
